@@ -144,6 +144,14 @@ type Vaxis struct {
 	mu     sync.Mutex
 	resize int32
 
+	// Input which arrives while New waits for the replies to its queries
+	// is kept and queued again when start-up is over. holdInput is raised
+	// by the reply which ends start-up: from there on PostEventBlocking
+	// waits for chTypeahead, which is closed once the input kept is in
+	// the queue, so that later input does not overtake it
+	holdInput   int32
+	chTypeahead chan struct{}
+
 	// suspendMu lets one Suspend run at a time and guards suspended; a
 	// frame and the cursor calls take it too, Suspend shares the writer and
 	// the cursor state with them
@@ -232,6 +240,7 @@ func New(opts Options) (*Vaxis, error) {
 	vx.chFg = make(chan string, 1)
 	vx.chBg = make(chan string, 1)
 	vx.chColor = make(chan string, 1)
+	vx.chTypeahead = make(chan struct{})
 
 	err = vx.openTty(tgts)
 	if err != nil {
@@ -239,6 +248,9 @@ func New(opts Options) (*Vaxis, error) {
 	}
 
 	vx.sendQueries()
+	// What the user typed (clicked, pasted) since the program was started
+	// comes in between the replies
+	var typeahead []Event
 outer:
 	for {
 		select {
@@ -346,9 +358,24 @@ outer:
 				vx.mu.Lock()
 				vx.caps.inBandResize = true
 				vx.mu.Unlock()
+			case Key, Mouse, FocusIn, FocusOut, PasteStartEvent, PasteEndEvent:
+				typeahead = append(typeahead, ev)
 			}
 		}
 	}
+
+	// The input is the application's. The queue may be smaller than what
+	// was typed and nobody reads it before we return: don't wait here
+	go func() {
+		defer close(vx.chTypeahead)
+		for _, ev := range typeahead {
+			select {
+			case vx.queue <- ev:
+			case <-vx.chQuit:
+				return
+			}
+		}
+	}()
 
 	// a cursor position report which never came is not expected anymore
 	atomicStore(&vx.reqCursorPos, false)
@@ -414,6 +441,14 @@ func (vx *Vaxis) PostEvent(ev Event) {
 // block if the queue is full. This method should only be used from a different
 // goroutine than the main thread.
 func (vx *Vaxis) PostEventBlocking(ev Event) {
+	if atomicLoad(&vx.holdInput) {
+		// the input which came in during start-up goes first
+		select {
+		case <-vx.chTypeahead:
+		case <-vx.chQuit:
+			return
+		}
+	}
 	select {
 	case vx.queue <- ev:
 	case <-vx.chQuit:
@@ -892,6 +927,9 @@ func (vx *Vaxis) handleSequence(seq ansi.Sequence) {
 					}
 				}
 				vx.PostEventBlocking(primaryDeviceAttribute{})
+				// New stops collecting at this reply: what we post
+				// from here on follows the input it has kept
+				atomicStore(&vx.holdInput, true)
 				return
 			}
 		case 'I':
